@@ -318,6 +318,8 @@ def geo_edit_sets(rng, ev: Eval, full_vars: int) -> list:
         if len(v.attrs) >= 2:
             E.append(('attr_reorder', name, [{'op': 'g_attr_reorder', 'var': name}]))
     E.append(('convention:subclass', None, [{'op': 'g_conv', 'to': 'subclass'}]))
+    E.append(('convention:subclass-same-module', None, [{'op': 'g_conv', 'to': 'subclass:name'}]))
+    E.append(('convention:subclass-same-name', None, [{'op': 'g_conv', 'to': 'subclass:module'}]))
     if state['conv'] == 'shoc_simple':
         E.append(('convention:cf2d', None, [{'op': 'g_conv', 'to': 'cf2d'}]))
     return E
